@@ -44,14 +44,21 @@ def run(chk, replay=None):
     r1 = vcheck.TlcRun('NixIds', 'MC_NixIds_time.cfg', workers=4, coverage=False).run()
     if not any('IdsUnique is violated' in e for e in r1.errors):
         raise vcheck.MachineryError('TLC did not find the same-second collision in the time-seeded design (vacuous model?)')
-    r2 = vcheck.TlcRun('NixIds', 'MC_NixIds_entropy.cfg', workers=8, coverage=False).run()
-    r2.require_ok()
-    chk.note_tlc(r1); chk.note_tlc(r2)
+    chk.note_tlc(r1)
+    for cfg, what in (('once', 'fork collision of a generator seeded once per process'), ('thread', 'collision between per-thread generators started from the process seed')):
+        rg = vcheck.TlcRun('NixIds', 'MC_NixIds_%s.cfg' % cfg, workers=4, coverage=False).run()
+        if not any('IdsUnique is violated' in e for e in rg.errors):
+            raise vcheck.MachineryError('TLC did not find the %s (vacuous model?)' % what)
+        chk.note_tlc(rg)
+    for cfg in ('once_nofork', 'entropy'):
+        r2 = vcheck.TlcRun('NixIds', 'MC_NixIds_%s.cfg' % cfg, workers=16, coverage=False, heap='12g').run()
+        r2.require_ok()
+        chk.note_tlc(r2)
     # 2. recorded executions per schedule class
     rp = vcheck.Replayer(binary, seed=chk.seed, jobs=1, chunk=1, timeout_per_line=300)
     K, N = (16, 400) if chk.thorough else (8, 60)
     rounds = 4 if chk.thorough else 1
-    classes = [('same_second', K, N), ('restart', 6, 30), ('shared_file', 4, 30)] + ([('staggered', 3, 30)] if chk.thorough else [])
+    classes = [('same_second', K, N), ('restart', 6, 30), ('shared_file', 4, 30), ('fork', 4, 30), ('threads', 3, 30)] + ([('staggered', 3, 30)] if chk.thorough else [])
     tdir = '%s/work/ids-%d' % (vcheck.BUILD, os.getpid())
     os.makedirs(tdir, exist_ok=True)
     try:
@@ -84,9 +91,10 @@ def run(chk, replay=None):
                                opts={'names': 2, 'ignore_handles': True}, coverage=['Create:reject', 'Open'])
     chk.traces_validated += 0
     chk.exhaustive = False
-    chk.rule = ('TLC: all interleavings of 3 processes, 2 clock ticks, 4 ids, 4 starts (collision found for the time-seeded design, none for the entropy-seeded one); '
+    chk.rule = ('TLC: all interleavings of 3 contexts (start / fork / thread / create / exit), 4 ids, 4 generators: collisions found for the designs "time" (same second), '
+                '"entropy_once" (after fork) and "per_thread" (threads of one process), none for per-call entropy; '
                 'recorded executions: one per schedule class and round (same second via barrier at a second boundary, restart within a second, '
-                'sequential sessions on one file%s), %d writers x %d entity creations of every kind; evaluations = ids issued, distinct = traces') % (
+                'sequential sessions on one file, children forked from a process that already issued ids, threads of one process one after the other%s), %d writers x %d entity creations of every kind; evaluations = ids issued, distinct = traces') % (
                 ', different seconds' if chk.thorough else '', K, N)
     chk.assumptions += ['uniqueness of entropy seeds is an assumption of the model; the verdict on the code comes from the validated traces of real processes',
                         'id stability within a session and across reopen is additionally part of every NixFile replay (ids are bound at creation)',
